@@ -5,10 +5,13 @@ from pyvc.unit import unit
 
 ANA, DEX = S.ANA, S.DEX
 META = {
-    "technique": 'contract-based deductive verification: symbolic execution of the real functions against sidecar contracts (z3/cvc5) for the proved units; bounded contract evaluation (enumerated scope / independent writer) for the rest',
+    "technique": 'contract-based deductive verification: symbolic execution of the real functions against sidecar contracts (z3/cvc5) for the proved units, inductive loop invariants and termination variants on the real loops (unbounded in length and iteration count); bounded contract evaluation (enumerated scope / independent writer) for the rest',
     "level": "other",
     "partial": True,
-    "level_text": "Proof (leaves, symbolic instruction lengths/offsets): EncodedMethod.get_instructions_idx yields each instruction "
+    "level_text": "Loop contracts (unbounded): DCode.get_ins_off / off_to_pos / EncodedMethod.get_instructions_idx over an instruction "
+                  "sequence of any length (uninterpreted prefix sums S(k) of positive lengths, Skolem witness): the instruction "
+                  "whose offset equals the argument is returned, a returned instruction starts exactly there, iteration k yields "
+                  "(S(k), instruction k). Proof (leaves, symbolic instruction lengths/offsets): EncodedMethod.get_instructions_idx yields each instruction "
                   "with the sum of the lengths before it; DCode.get_ins_off / off_to_pos return the instruction whose offset equals "
                   "the argument (None / -1 otherwise); DEXBasicBlock.push keys special_ins by the instruction's own offset and stores "
                   "the object found at offset + 2*ref_off. Bounded (composition): on every enumerated small method all block bounds "
